@@ -12,7 +12,7 @@ use std::collections::BTreeMap;
 pub fn def() -> PropDef {
     PropDef {
         id: "C10",
-        rule: "generated argument tuples of encode and decode: counts from small values and the extreme pools, a valid sufficient base input with 0..2 injected faults (index replaced by duplicate / count+d / huge value, length replaced, shards dropped or added, recovery removed). every call through one of three iterator kinds (slice; filter over a longer container, i.e. loose size_hint; from_fn, i.e. no size_hint). oracle: the documented streaming sequence is executed (ReedSolomonEncoder::new(k,r,len(first)) + adds in order + encode; ReedSolomonDecoder sized from the first recovery shard + adds + decode): streaming Ok => one-shot Ok with identical Vec / map; streaming Err => one-shot Err with an error that is truthful for the input (model of C06; order of checks is free); without recovery shards: never Ok unless all indexes are in range and unique, all lengths equal, even, non-zero and all k originals present. non-trivial: faulty input without recovery shards, or >=2 faults, or success with originals and recovery mixed; distinct by full case",
+        rule: "generated argument tuples of encode and decode: counts from small values and the extreme pools, a valid sufficient base input with 0..2 injected faults (index replaced by duplicate / count+d / huge value, length replaced, shards dropped or added, recovery removed). every call through one of four iterator kinds (slice; filter over a longer container, i.e. loose size_hint; from_fn, i.e. no size_hint; re-entrant: the iterator itself makes complete one-shot calls while the crate is pulling from it); count pairs include the 2-wide band around the envelope boundary with a complete set of originals. oracle: the documented streaming sequence is executed (ReedSolomonEncoder::new(k,r,len(first)) + adds in order + encode; ReedSolomonDecoder sized from the first recovery shard + adds + decode): streaming Ok => one-shot Ok with identical Vec / map; streaming Err => one-shot Err with an error that is truthful for the input (model of C06; order of checks is free); without recovery shards: never Ok unless all indexes are in range and unique, all lengths equal, even, non-zero and all k originals present. non-trivial: faulty input without recovery shards, or >=2 faults, or success with originals and recovery mixed; distinct by full case",
         assumptions: &["shard contents are arbitrary bytes: equality with the streaming API does not need consistent shards"],
         parts,
     }
@@ -26,6 +26,18 @@ fn shard(len: usize, seed: u64) -> Vec<u8> {
     let mut v = vec![0u8; len];
     Xs::new(seed).fill(&mut v);
     v
+}
+
+/// complete, valid one-shot calls made from inside another call's shard iterator; their results are checked
+fn nested_calls() {
+    let a = vec![1u8, 2, 3, 4];
+    let b = vec![5u8, 6, 7, 8];
+    let rec = reed_solomon_simd::encode(2, 1, [&a, &b]).expect("nested one-shot encode of valid input failed");
+    let none: [(usize, &Vec<u8>); 0] = [];
+    let all = reed_solomon_simd::decode(2, 1, [(0, &a), (1, &b)], none).expect("nested one-shot decode (no recovery) of valid input failed");
+    assert!(all.is_empty(), "nested decode with all originals restored something");
+    let got = reed_solomon_simd::decode(2, 1, [(1, &b)], [(0, &rec[0])]).expect("nested one-shot decode of valid input failed");
+    assert!(got.get(&0) == Some(&a), "nested decode restored wrong data");
 }
 
 fn streaming_encode(k: usize, r: usize, shards: &[Vec<u8>]) -> Result<Vec<Vec<u8>>, Error> {
@@ -61,7 +73,18 @@ pub fn check(c: &OneShot, st: &mut Stats) -> CheckResult {
             let what = format!("encode({k}, {r}, shards of lengths {lens:?})");
             // the iterator kind is part of the input: exact slice / filtered longer container (loose upper
             // bound) / from_fn (no bounds at all)
-            let one = no_panic(|| match hseed % 3 {
+            let one = no_panic(|| match hseed % 4 {
+                3 => {
+                    // re-entrant: while the crate pulls shards from this iterator, the iterator itself makes
+                    // complete one-shot calls on the same thread (lazy multi-level coding does that)
+                    let mut n = 0;
+                    reed_solomon_simd::encode(*k, *r, shards.iter().inspect(|_| {
+                        n += 1;
+                        if n == 2 || n == 1 {
+                            nested_calls();
+                        }
+                    }))
+                }
                 0 => reed_solomon_simd::encode(*k, *r, &shards),
                 1 => {
                     let padded: Vec<(bool, &Vec<u8>)> = shards.iter().flat_map(|s| [(true, s), (false, s)]).collect();
@@ -76,7 +99,7 @@ pub fn check(c: &OneShot, st: &mut Stats) -> CheckResult {
                 }
             })
             .map_err(|p| format!("{what} {p}"))?;
-            st.classf("iterator", ["slice", "filtered", "from_fn"][(hseed % 3) as usize]);
+            st.classf("iterator", ["slice", "filtered", "from_fn", "reentrant"][(hseed % 4) as usize]);
             if shards.is_empty() {
                 judge(&what, &one, &truth)?;
             } else {
@@ -100,7 +123,26 @@ pub fn check(c: &OneShot, st: &mut Stats) -> CheckResult {
             let rs: Vec<(usize, Vec<u8>)> = rv.iter().enumerate().map(|(j, &(i, l))| (i, shard(l, hseed ^ 0x8000 ^ j as u64))).collect();
             let truth = truth_oneshot_decode(*k, *r, &o, &rv);
             let what = format!("decode({k}, {r}, originals (index,len) {o:?}, recovery (index,len) {rv:?})");
-            let one = no_panic(|| match hseed % 3 {
+            let one = no_panic(|| match hseed % 4 {
+                3 => {
+                    let (mut a, mut b) = (0, 0);
+                    reed_solomon_simd::decode(
+                        *k,
+                        *r,
+                        os.iter().map(|(i, s)| (*i, s)).inspect(|_| {
+                            a += 1;
+                            if a <= 2 {
+                                nested_calls();
+                            }
+                        }),
+                        rs.iter().map(|(i, s)| (*i, s)).inspect(|_| {
+                            b += 1;
+                            if b <= 2 {
+                                nested_calls();
+                            }
+                        }),
+                    )
+                }
                 0 => reed_solomon_simd::decode(*k, *r, os.iter().map(|(i, s)| (*i, s)), rs.iter().map(|(i, s)| (*i, s))),
                 1 => {
                     let po: Vec<(bool, usize, &Vec<u8>)> = os.iter().flat_map(|(i, s)| [(false, *i, s), (true, *i, s)]).collect();
@@ -124,7 +166,7 @@ pub fn check(c: &OneShot, st: &mut Stats) -> CheckResult {
                 }
             })
             .map_err(|p| format!("{what} {p}"))?;
-            st.classf("iterator", ["slice", "filtered", "from_fn"][(hseed % 3) as usize]);
+            st.classf("iterator", ["slice", "filtered", "from_fn", "reentrant"][(hseed % 4) as usize]);
             let one: Result<BTreeMap<usize, Vec<u8>>, Error> = one.map(|m| m.into_iter().collect());
             if rs.is_empty() {
                 // no inferred size is documented: the property's own list decides
